@@ -268,6 +268,16 @@ theorem C18_run_code (env : Env) (i : Inst) (cd : Nat) (code text : List B) (pro
   unfold runScript finishRun
   split <;> rfl
 
+/-- the same for an assembly text the assembly front end accepts: the code of the run -/
+theorem C18_run_assembly (env : Env) (i : Inst) (cd : Nat) (code text : List B) (prog : List Instr) (fuel : Nat)
+    (hv : i.valid = true) (hidle : i.state = .empty) (hpp : env.pp code = some text) (hparse : env.parseAsm text = some prog) :
+    (call env i cd 97 code fuel).2 = if succeeded (startOf (withCall i cd) prog fuel) then 0 else -6 := by
+  unfold call callBody
+  simp only [hv, hidle, hpp, hparse, Bool.true_eq_false, if_false, ne_eq, not_true_eq_false, if_true,
+    show (97 : Nat) ≠ 115 by decide, show (97 : Nat) ≠ 112 by decide, show (97 : Nat) ≠ 49 by decide]
+  unfold runScript finishRun
+  split <;> rfl
+
 /-- the code 0 is never returned for a text the preprocessor or the parser rejected, nor for a failed run:
 every call that returns 0 was preprocessed, (for `'s'`) parsed, and ended without an error result -/
 theorem C18_zero_truthful (env : Env) (i : Inst) (cd : Nat) (code : List B) (fuel : Nat)
